@@ -34,6 +34,19 @@ def generate(rng, tier):
         elif r < 0.22 and entry != 2:
             c["kw"] = rng.choice([1, 2]); c["family"] += "/keyword-arguments"
         cases.append(c)
+    # creeping moves (less than a step of travel: |rate| * T and |accel| * T^2 below 2^31, odd accel and odd T so that the sums end in .5)
+    # from an accumulator so nearly full - or so nearly empty, going backward - that the running total crosses a step boundary all the same
+    for _ in range(60 if tier == "quick" else 3000):
+        T = rng.choice([1, 3, 3, 5, 7, 9, 21, 99, 1001]); bits = rng.randint(3, 30)
+        rate = rng.choice([1, -1]) * rng.randint(0, max(1, (2**bits) // T))
+        accel = rng.choice([1, -1]) * (2 * rng.randint(0, max(0, (2**bits) // (2 * T * T))) + 1)
+        if not ebbgen.lt_in_domain(rate, accel, T): continue
+        tot = ebbgen.lt_total0(rate, accel, T)
+        if tot > 0: acc = ebbgen.B - rng.randint(1, tot)
+        elif tot < 0: acc = rng.randint(0, -tot - 1)
+        else: acc = rng.choice([0, ebbgen.M])
+        if not 0 <= acc <= ebbgen.M: continue
+        cases.append({"entry": rng.choice([0, 0, 1]), "rate": rate, "accel": accel, "T": T, "acc": acc, "amb": rng.randrange(len(AMBIENT)), "family": "creeping-move-across-a-step-boundary"})
     for _ in range(30 if tier == "quick" else 1000):
         # two moves that differ in one argument only, -1 against -2 (equal hashes in CPython) or neighbouring small values
         rate, accel, T, fam = ebbgen.gen_lt(rng)
